@@ -57,10 +57,13 @@ func init() {
 			{ID: "C03-R25", Title: "assertions on the unprotected surface are checked", Floor: 0, Run: assertionsOnTheUnprotectedSurfaceAreChecked},
 			{ID: "C03-R26", Title: "the value of a failed two-valued assertion is not used", Floor: 100, Run: failedAssertionsAreNotUsed},
 			{ID: "C03-R27", Title: "deferred closures that re-enter the function that deferred them count their nesting", Floor: 1, Run: deferredReentryIsBounded},
-			{ID: "C03-R28", Title: "goroutines do not dereference fields that are set to nil elsewhere", Floor: 2, Run: goroutinesDoNotUseWhatIsClearedElsewhere},
+			{ID: "C03-R28", Title: "goroutines do not dereference fields that are set to nil elsewhere", Floor: 1, Run: goroutinesDoNotUseWhatIsClearedElsewhere},
 			{ID: "C03-R29", Title: "recover handlers of goroutines do not panic themselves", Floor: 1, Run: recoverHandlersDoNotPanic},
 			{ID: "C03-R30", Title: "nil beliefs hold across functions on the unprotected surface", Floor: 3, Run: nilBeliefsHoldAcrossFunctions},
 			{ID: "C03-R31", Title: "cycles are looked for at every level past the threshold", Floor: 2, Run: cyclesAreLookedForAtEveryLevelPastTheThreshold},
+			{ID: "C03-R32", Title: "the frame table is tested before a call takes the next frame", Floor: 2, Run: theFrameTableIsTestedBeforeItGrows},
+			{ID: "C03-R33", Title: "the record of a walk over containers goes through the types that wrap them", Floor: 8, Run: theVisitRecordGoesThroughWrappers},
+			{ID: "C03-R34", Title: "nesting counters of the VM are kept on every path", Floor: 2, Run: nestingCountersAreKeptOnEveryPath},
 		},
 	})
 }
